@@ -471,7 +471,8 @@ class Engine:
                              z3.And(a.is_('bool'), z3.If(a.get('bool'), 1, 0) == b.t))
             k = b.kind
             if k in KSORT:
-                return z3.And(a.is_(k), a.get(k) == b.t)
+                kk, tt = storable(b)
+                return z3.And(a.is_(kk), a.get(kk) == tt)
             raise Unsupported('veq union vs %r' % (b,))
         if isinstance(a, VNone) or isinstance(b, VNone):
             return z3.BoolVal(isinstance(a, VNone) and isinstance(b, VNone))
